@@ -436,64 +436,73 @@ Fixpoint build_directives (dirs : list directive) (tag : node) (attrs : list nod
   end.
 
 (* ---- the element / fragment lowering (mutually recursive with children) ---------------- *)
+(* open recursion: [rec] is lower_el itself *)
+Definition lower_children_with (rec : node -> st -> node * st)
+  : list node -> st -> list node * st :=
+  fix lower_children (cs : list node) (s : st) {struct cs} : list node * st :=
+    match cs with
+    | [] => ([], s)
+    | c :: r =>
+        let '(o, s) :=
+          match c with
+          | JText v _ => let '(t, s) := transform_jsx_text v s in
+                         (match t with Some t => [Elem false t] | None => [] end, s)
+          | JExprC JEmpty => ([], s)
+          | JExprC e => ([Elem false e], mark_dynamic e s)
+          | JSpreadChild e => ([Elem true e], mark_dynamic e s)
+          | JsxE _ _ _ _ _ _ => let '(x, s) := rec c s in ([Elem false x], s)
+          | JsxF _ => let '(x, s) := rec c s in ([Elem false x], s)
+          | _ => ([], s)
+          end in
+        let '(r', s) := lower_children r s in (o ++ r', s)
+    end.
+
+(* a JSX element / fragment written directly as the value of a plain attribute is lowered
+   when the attribute fold reaches it; doing all of them before the fold only permutes
+   diagnostics (compared as a set) *)
+Definition lower_attr_values_with (rec : node -> st -> node * st)
+  : list node -> st -> list node * st :=
+  fix lower_attr_values (l : list node) (s : st) {struct l} : list node * st :=
+    match l with
+    | [] => ([], s)
+    | a :: r =>
+        let '(a', s) :=
+          match a with
+          | JAttr nm ((JsxE _ _ _ _ _ _) as v) =>
+              if is_directive a then (a, s)
+              else let '(x, s) := rec v s in (JAttr nm (JExprC x), s)
+          | JAttr nm ((JsxF _) as v) =>
+              if is_directive a then (a, s)
+              else let '(x, s) := rec v s in (JAttr nm (JExprC x), s)
+          | _ => (a, s)
+          end in
+        let '(r', s) := lower_attr_values r s in (a' :: r', s)
+    end.
+
+Definition vnode_hints (ar : attrs_result) : list node :=
+  if o_optimize O then
+    (if N.eqb (r_flags ar) 0 then [] else [mk_num (r_flags ar)])
+    ++ match r_dyn ar with
+       | Some ((_ :: _) as d) => [Arr (map (fun p => Elem false (mk_str p)) d)]
+       | _ => []
+       end
+  else [].
+
+Definition push_slot_flag (s : st) : st :=
+  if o_optimize O then set_slot_stack (slot_stack s ++ [false]) s else s.
+
 Fixpoint lower_el (n : node) (s : st) {struct n} : node * st :=
-  let lower_children :=
-    fix lower_children (cs : list node) (s : st) {struct cs} : list node * st :=
-      match cs with
-      | [] => ([], s)
-      | c :: r =>
-          let '(o, s) :=
-            match c with
-            | JText v _ => let '(t, s) := transform_jsx_text v s in
-                           (match t with Some t => [Elem false t] | None => [] end, s)
-            | JExprC JEmpty => ([], s)
-            | JExprC e => ([Elem false e], mark_dynamic e s)
-            | JSpreadChild e => ([Elem true e], mark_dynamic e s)
-            | JsxE _ _ _ _ _ _ => let '(x, s) := lower_el c s in ([Elem false x], s)
-            | JsxF _ => let '(x, s) := lower_el c s in ([Elem false x], s)
-            | _ => ([], s)
-            end in
-          let '(r', s) := lower_children r s in (o ++ r', s)
-      end in
-  (* a JSX element / fragment written directly as the value of a plain attribute is lowered
-     when the attribute fold reaches it; doing all of them before the fold only permutes
-     diagnostics (compared as a multiset) *)
-  let lower_attr_values :=
-    fix lower_attr_values (l : list node) (s : st) {struct l} : list node * st :=
-      match l with
-      | [] => ([], s)
-      | a :: r =>
-          let '(a', s) :=
-            match a with
-            | JAttr nm ((JsxE _ _ _ _ _ _) as v) =>
-                if is_directive a then (a, s)
-                else let '(x, s) := lower_el v s in (JAttr nm (JExprC x), s)
-            | JAttr nm ((JsxF _) as v) =>
-                if is_directive a then (a, s)
-                else let '(x, s) := lower_el v s in (JAttr nm (JExprC x), s)
-            | _ => (a, s)
-            end in
-          let '(r', s) := lower_attr_values r s in (a' :: r', s)
-      end in
   match n with
   | JsxE name attrs0 _ _ children _ =>
-      let s := if o_optimize O then set_slot_stack (slot_stack s ++ [false]) s else s in
+      let s := push_slot_flag s in
       let is_comp := is_component name in
-      let '(attrs, s) := lower_attr_values attrs0 s in
+      let '(attrs, s) := lower_attr_values_with lower_el attrs0 s in
       let ar := transform_attrs attrs is_comp s in
       let '(tag, s) := transform_tag name (r_st ar) in
-      let '(elems, s) := lower_children children s in
+      let '(elems, s) := lower_children_with lower_el children s in
       let '(ch, s) := finish_children elems is_comp (r_slots ar) s in
-      let hints :=
-        if o_optimize O then
-          (if N.eqb (r_flags ar) 0 then [] else [mk_num (r_flags ar)])
-          ++ match r_dyn ar with
-             | Some ((_ :: _) as d) => [Arr (map (fun p => Elem false (mk_str p)) d)]
-             | _ => []
-             end
-        else [] in
       let '(callee, s) := get_pragma s in
-      let call := mk_call callee ([tag; r_attrs ar; ch] ++ hints) in
+      let call := mk_call callee ([tag; r_attrs ar; ch] ++ vnode_hints ar) in
       match r_dirs ar with
       | [] => (call, s)
       | dirs =>
@@ -502,10 +511,10 @@ Fixpoint lower_el (n : node) (s : st) {struct n} : node * st :=
           (mk_call wd [call; Arr ds], s)
       end
   | JsxF children =>
-      let s := if o_optimize O then set_slot_stack (slot_stack s ++ [false]) s else s in
+      let s := push_slot_flag s in
       let '(callee, s) := get_pragma s in
       let '(frag, s) := import_from_vue "Fragment" s in
-      let '(elems, s) := lower_children children s in
+      let '(elems, s) := lower_children_with lower_el children s in
       let '(ch, s) := finish_children elems false None s in
       (mk_call callee [frag; Null; ch], s)
   | _ => (n, s)
